@@ -69,8 +69,9 @@ type respFrame struct {
 	key       string
 	prev      *respFrame
 	next      *respFrame
-	closed    bool  // judged as the end of its journey
-	answerers []int // agents whose answer this content can be (nil: cannot tell)
+	closed    bool    // judged as the end of its journey
+	answerers []int   // agents whose answer this content can be (nil: cannot tell)
+	req       *ctlReq // the call whose request crossed this link, in the other direction, under this id
 }
 
 func typName(t uint8) string {
@@ -138,7 +139,15 @@ func (w *c39World) onFrame(ev *FrameEvent) {
 		} else {
 			simrt.Failf("response-without-request", "an agent sent a response under an id its receiver has no request outstanding for on that link", "%s->%s response id=%d (%s ok=%v)", ev.From, ev.To, resp.RequestID, typName(resp.ControlType), resp.Success)
 		}
-		rf := &respFrame{seq: ev.Seq, from: f, to: t, id: resp.RequestID, typ: resp.ControlType, success: resp.Success,
+		var onLink *ctlReq
+		for _, r := range w.reqs {
+			for _, h := range r.hops {
+				if h.from == t && h.to == f && h.id == resp.RequestID {
+					onLink = r
+				}
+			}
+		}
+		rf := &respFrame{req: onLink, seq: ev.Seq, from: f, to: t, id: resp.RequestID, typ: resp.ControlType, success: resp.Success,
 			key: fmt.Sprintf("%d/%v/%d/%x", resp.ControlType, resp.Success, len(resp.Data), simrt.FNV(resp.Data))}
 		// a relay re-emits what it received: unless the content says the sender itself is
 		// the answerer, stitch to the oldest unmatched arrival with the same content
@@ -148,6 +157,16 @@ func (w *c39World) onFrame(ev *FrameEvent) {
 			var cand *respFrame
 			for _, p := range w.resps {
 				if p.to == f && p.next == nil && !p.closed && p.key == rf.key {
+					// two calls through one relay can get answers with the same
+					// content: the arrival that belongs to the same call (known from
+					// the ids its request carried hop by hop) is the one relayed on
+					if rf.req != nil && p.req == rf.req {
+						cand = p
+						break
+					}
+					if rf.req != nil && p.req != nil {
+						continue
+					}
 					if p.id == rf.id {
 						cand = p
 						break
@@ -334,8 +353,11 @@ func (w *c39World) judgeTerminals() {
 		var asker, transitOf *ctlReq
 		// two calls of one agent to one target for the same kind of answer look
 		// alike: the one that went out under the id the response carries is the asker
+		if rf.req != nil && match(rf.req) && rf.req.from == z && !rf.req.consumed {
+			asker = rf.req
+		}
 		for _, r := range w.reqs {
-			if match(r) && r.from == z && !r.consumed && len(r.hops) > 0 && firstID(r) == rf.id {
+			if asker == nil && match(r) && r.from == z && !r.consumed && len(r.hops) > 0 && firstID(r) == rf.id {
 				asker = r
 				break
 			}
